@@ -15,10 +15,10 @@ func init() {
 }
 
 type upgA struct {
-	fullCbs  []func(*core.Path)
-	afterCbs []func()
-	c                                     *Ctx
-	upgrade, retErr, tlcv, validKey, accept *ssa.Function
+	fullCbs                                  []func(*core.Path)
+	afterCbs                                 []func()
+	c                                        *Ctx
+	upgrade, retErr, tlcv, validKey, accept  *ssa.Function
 	selectSub, sameOrigin, parseExt, newConn *ssa.Function
 }
 
